@@ -329,7 +329,7 @@ fn check_main(args: &[String]) {
     if property == "C08" && std::env::var("VERIF_SKIP_MIRI").is_err() {
         let (n_seeds, n_plans, reps) = match tier {
             Tier::Thorough => (128, 3, 6),
-            Tier::Quick => (16, 2, 2),
+            Tier::Quick => (16, 3, 2),
             Tier::Tiny => (4, 1, 2),
         };
         let m = miri_tier(seed, n_seeds, n_plans, reps, None, false);
